@@ -109,7 +109,14 @@ func (d *Decoder) Decode(bts []byte) (interface{}, error) {
 }
 
 //ReadObject read new object from reader
-func (d *Decoder) ReadObject() (interface{}, error) {
+func (d *Decoder) ReadObject() (obj interface{}, err error) {
+	// malformed input must come back as an error: values are assigned with reflect,
+	// which panics on a wire value that does not fit the Go type it is stored into
+	defer func() {
+		if r := recover(); r != nil {
+			obj, err = nil, newCodecError("ReadObject", "invalid data: %v", r)
+		}
+	}()
 	return EnsureInterface(d.ReadData())
 }
 
